@@ -707,6 +707,16 @@ def task_pos(ctx, repo, m, fn):
             g = z3.And(S.to_real(r[0]) > 0,
                        S.to_z3(S.cmp('==', r[0], p)),
                        S.to_z3(S.cmp('<=', env['change'], tol)),
+                       # "satisfies its pressure function to the requested
+                       # tolerance": p is the Newton iterate of pold for
+                       # f = fl + fr + (ur - ul) (fl, fr evaluated at pold)
+                       # and moved by at most tol relative to it
+                       S.to_z3(S.cmp('==', S.mul(S.sub(pold, p), S.add(
+                           env['fl'][1], env['fr'][1])), S.add(S.add(
+                               env['fl'][0], env['fr'][0]),
+                               S.sub(v['ur'], v['ul'])))),
+                       S.to_z3(S.cmp('==', env['change'], S.mul(2, S.absval(
+                           S.div(S.sub(p, pold), S.add(p, pold)))))),
                        S.to_z3(S.cmp('==', r[1], S.mul(Fraction(1, 2), S.add(
                            S.add(v['ul'], v['ur']),
                            S.sub(env['fr'][0], env['fl'][0]))))))
@@ -723,6 +733,42 @@ def task_pos(ctx, repo, m, fn):
                     return dict(reproduced=True, target=fn,
                                 inputs=dict(a_, niter=ni, tol=tl),
                                 observed=r, expected='p* > 0 on success')
+        if fn == 'exact':
+            # the returned pressure is a converged Newton iterate: one more
+            # Newton step of the module's own pressure function moves it by
+            # (much) less than the tolerance
+            import math
+            mod = native.load(MOD)
+            probes = [dict(rhol=1e-3, rhor=10.0, pl=1e-4, pr=1e-3, ul=0.0,
+                           ur=-0.05, gamma=2.0, tol=1e-3),
+                      dict(rhol=10.0, rhor=1e-3, pl=1e-3, pr=1e-4, ul=0.05,
+                           ur=0.0, gamma=2.0, tol=1e-3),
+                      dict(rhol=1.0, rhor=0.125, pl=1.0, pr=0.1, ul=0.0,
+                           ur=0.0, gamma=1.4, tol=1e-6)]
+            for q in probes:
+                res = [0.0, 0.0]
+                g = q['gamma']
+                code = mod.exact(q['rhol'], q['rhor'], q['pl'], q['pr'],
+                                 q['ul'], q['ur'], g, 40, q['tol'], res)
+                if code != 0:
+                    continue
+                ps = res[0]
+                cl = math.sqrt(g * q['pl'] / q['rhol'])
+                cr = math.sqrt(g * q['pr'] / q['rhor'])
+                g1, g2 = (g - 1) / (2 * g), (g + 1) / (2 * g)
+                g4, g5, g6 = 2 / (g - 1), 2 / (g + 1), (g - 1) / (g + 1)
+                fl, fr = [0.0, 0.0], [0.0, 0.0]
+                mod.prefun_exact(ps, q['rhol'], q['pl'], cl, g1, g2, g4, g5,
+                                 g6, fl)
+                mod.prefun_exact(ps, q['rhor'], q['pr'], cr, g1, g2, g4, g5,
+                                 g6, fr)
+                step = (fl[0] + fr[0] + q['ur'] - q['ul']) / (fl[1] + fr[1])
+                if abs(step) > 50 * q['tol'] * abs(ps):
+                    return dict(reproduced=True, target=fn, inputs=q,
+                                observed=dict(pstar=ps,
+                                              next_newton_step=step),
+                                expected='|next Newton step| <= tol * p* '
+                                'on success')
         return dict(reproduced=False)
     ctx.prove('%s.success' % fn, obs, replay=rp)
 
